@@ -150,13 +150,56 @@ theorem nondigit_facts (u : Uni) {c : Char} (ha : c.val < 128) (h1 : c ∉ decDi
     · exact absurd (hexLetters_sub c (by simpa using h)) h2
   exact ⟨by rw [isD_ascii u ha, hd], by rw [isH_ascii u ha, hd, hx]; rfl⟩
 
-/-- the first character after the digits of a well-formed constant (suffix or continuation) -/
-theorem after_head (u : Uni) {sfx : String} (hs : sfx ∈ Spec.integerSuffixes) {rest : List Char}
-    (hb : boundaryOK rest) : ∀ c, (sfx.toList ++ rest).head? = some c →
+theorem shape_tbl : ∀ c ∈ wordChars, suffixHeadBad.contains c = false →
+    c ∉ hexDigits ∧ c ∉ decDigits ∧ isXc c = false ∧ isBc c = false ∧ c ≠ '.' ∧ c ≠ '+' ∧ c ≠ '-' ∧
+    isE c = false ∧ isP c = false := by decide
+
+/-- what `suffixShape` says -/
+theorem suffixShape_facts {s : List Char} (h : suffixShape s = true) :
+    (∀ c ∈ s, c ∈ wordChars) ∧
+    (∀ c, s.head? = some c →
+      c ∉ hexDigits ∧ c ∉ decDigits ∧ isXc c = false ∧ isBc c = false ∧ c ≠ '.' ∧ c ≠ '+' ∧ c ≠ '-' ∧
+      isE c = false ∧ isP c = false) := by
+  unfold suffixShape at h
+  simp only [Bool.and_eq_true, List.all_eq_true] at h
+  obtain ⟨h1, h2⟩ := h
+  have hw : ∀ c ∈ s, c ∈ wordChars := fun c hc => by simpa using h1 c hc
+  refine ⟨hw, ?_⟩
+  intro c hc
+  cases s with
+  | nil => cases hc
+  | cons d tl =>
+    simp at hc; subst hc
+    simp only [Bool.not_eq_true'] at h2
+    exact shape_tbl d (hw d (by simp)) h2
+
+theorem suffix_shape_tbl : ∀ s ∈ Spec.integerSuffixes, suffixShape s.toList = true := by decide +kernel
+
+theorem Spec.IntConst.WF.shape {k : IntConst} (h : k.WF) : k.Shape := by
+  obtain ⟨hs, hb⟩ := h
+  refine ⟨suffix_shape_tbl _ hs, ?_⟩
+  cases hbse : k.base with
+  | dec => rw [hbse] at hb; exact hb
+  | oct =>
+    rw [hbse] at hb; simp only at hb ⊢
+    intro c hc
+    have := (oct_tbl c (by have := hb c hc; unfold isOct at this; simpa using this)).1
+    unfold isDec; simpa using this
+  | hex x => rw [hbse] at hb; exact hb
+  | bin b =>
+    rw [hbse] at hb; simp only at hb ⊢
+    refine ⟨hb.1, hb.2.1, ?_⟩
+    intro c hc
+    have := (bin_tbl c (by have := hb.2.2 c hc; unfold isBin at this; simpa using this)).1
+    unfold isDec; simpa using this
+
+/-- the first character after the digits of a constant (suffix or continuation) -/
+theorem after_head (u : Uni) {sfx : List Char} (hs : suffixShape sfx = true) {rest : List Char}
+    (hb : boundaryOK rest) : ∀ c, (sfx ++ rest).head? = some c →
       u.isD c = false ∧ u.isH c = false ∧ isXc c = false ∧ isBc c = false := by
   intro c hc
-  obtain ⟨_, hw, hh⟩ := suffix_tbl sfx hs
-  cases hl : sfx.toList with
+  obtain ⟨hw, hh⟩ := suffixShape_facts hs
+  cases hl : sfx with
   | nil =>
     rw [hl] at hc
     obtain ⟨_, b, c', d, e, _⟩ := boundary_head u hb c (by simpa using hc)
@@ -190,30 +233,41 @@ theorem badDigits_nil (line col : Nat) (m : IntMatch) (name : String) (bucket : 
   simp only at this ⊢
   rw [this]; rfl
 
-/-- result of closing a match on a well-formed constant: the suffix group is the suffix and
-no suffix diagnostic is produced -/
-theorem intFin_valid (u : Uni) (pre const : List Char) (hc : const ≠ []) {sfx : String}
-    (hs : sfx ∈ Spec.integerSuffixes) {rest : List Char} (hb : boundaryOK rest) :
-    intFin u pre const (sfx.toList ++ rest) = some ⟨pre, const, sfx.toList⟩ := by
+/-- result of closing a match: the suffix group is exactly the suffix-shaped text -/
+theorem intFin_valid (u : Uni) (pre const : List Char) (hc : const ≠ []) {sfx : List Char}
+    (hw : ∀ c ∈ sfx, c ∈ wordChars) {rest : List Char} (hb : boundaryOK rest) :
+    intFin u pre const (sfx ++ rest) = some ⟨pre, const, sfx⟩ := by
   unfold intFin
   have : const.isEmpty = false := by cases const <;> simp_all
   simp only [this, Bool.false_eq_true, ↓reduceIte]
-  rw [intSuffix_eq u _ (suffix_tbl sfx hs).2.1 hb]
+  rw [intSuffix_eq u _ hw hb]
 
 theorem suffix_diag_nil {sfx : String} (hs : sfx ∈ Spec.integerSuffixes) :
     Generated.integerSuffixes.contains (String.ofList sfx.toList) = true := by
   rw [String.ofList_toList]; exact (suffix_tbl sfx hs).1
 
-/-- **Every well-formed integer constant is matched whole, with its suffix recognised and
-no diagnostic**, whatever follows it (within `boundaryOK`). Unbounded digit strings, all four
-bases, every suffix of the table. -/
-theorem matchInt_valid (u : Uni) (k : IntConst) (hk : k.WF) (rest : List Char) (hb : boundaryOK rest) :
-    ∃ m, matchInt u (k.render ++ rest) = some m ∧ m.pre ++ m.const ++ m.suf = k.render ∧
-      m.suf = k.suffix.toList ∧ ∀ line col total, intDiags line col total m = [] := by
+/-- the `Prefix` and `Constant` groups of the match of a constant of the given shape -/
+def Spec.IntConst.mpre (k : IntConst) : List Char :=
+  match k.base with
+  | .dec => []
+  | .oct => if k.digits = [] then [] else ['0']
+  | .hex x => ['0', x]
+  | .bin b => ['0', b]
+def Spec.IntConst.mconst (k : IntConst) : List Char :=
+  match k.base with
+  | .oct => if k.digits = [] then ['0'] else k.digits
+  | _ => k.digits
+
+/-- **Every integer constant of the given shape — well-formed or not — is matched whole**: the groups of the
+match are the prefix, the digits and the suffix-shaped text, whatever follows it (within `boundaryOK`). Unbounded
+digit strings, all four bases, every suffix shape. -/
+theorem matchInt_shape (u : Uni) (k : IntConst) (hk : k.Shape) (rest : List Char) (hb : boundaryOK rest) :
+    matchInt u (k.render ++ rest) = some ⟨k.mpre, k.mconst, k.suffix.toList⟩ ∧
+      k.mpre ++ k.mconst ++ k.suffix.toList = k.render := by
   obtain ⟨hs, hbase⟩ := hk
   have hah := after_head u hs hb
-  have sufok := suffix_diag_nil hs
-  have sufmem : k.suffix ∈ Generated.integerSuffixes := by simpa using (suffix_tbl _ hs).1
+  have hw := (suffixShape_facts hs).1
+  unfold IntConst.mpre IntConst.mconst
   unfold IntConst.render IntConst.body
   cases hbse : k.base with
   | dec =>
@@ -231,21 +285,17 @@ theorem matchInt_valid (u : Uni) (k : IntConst) (hk : k.WF) (rest : List Char) (
     have hdw : (k.digits ++ (k.suffix.toList ++ rest)).dropWhile u.isD = k.suffix.toList ++ rest :=
       dropWhile_app (fun c hc => (dec_facts u (hall c hc)).1) (fun c hc => (hah c hc).1)
     have hne : k.digits ≠ [] := by rw [hd]; simp
-    refine ⟨⟨[], k.digits, k.suffix.toList⟩, ?_, by simp, rfl, ?_⟩
-    · rw [List.append_assoc]
-      unfold matchInt
-      rw [hd] at htw hdw ⊢
-      simp only [List.cons_append] at htw hdw ⊢
-      rw [htw, hdw, ← hd]
-      exact intFin_valid u [] k.digits hne hs hb
-    · intro line col total
-      unfold intDiags
-      simp [sufmem]
+    refine ⟨?_, by simp⟩
+    rw [List.append_assoc]
+    unfold matchInt
+    rw [hd] at htw hdw ⊢
+    simp only [List.cons_append] at htw hdw ⊢
+    rw [htw, hdw, ← hd]
+    exact intFin_valid u [] k.digits hne hw hb
   | oct =>
     rw [hbse] at hbase
     simp only at hbase ⊢
-    have hall : ∀ c ∈ k.digits, c ∈ decDigits := fun c hc => (oct_tbl c (by have := hbase c hc; unfold isOct at this; simpa using this)).1
-    have hoct : ∀ c ∈ k.digits, "01234567".toList.contains c = true := fun c hc => (oct_tbl c (by have := hbase c hc; unfold isOct at this; simpa using this)).2
+    have hall : ∀ c ∈ k.digits, c ∈ decDigits := fun c hc => by have := hbase c hc; unfold isDec at this; simpa using this
     -- what follows the leading `0`
     have htl_head : ∀ c, (k.digits ++ (k.suffix.toList ++ rest)).head? = some c → isXc c = false ∧ isBc c = false := by
       intro c hc
@@ -278,7 +328,8 @@ theorem matchInt_valid (u : Uni) (k : IntConst) (hk : k.WF) (rest : List Char) (
     have h0 : u.isD '0' = true := (dec_facts u (by decide : '0' ∈ decDigits)).1
     by_cases hne : k.digits = []
     · -- the constant `0`
-      refine ⟨⟨[], ['0'], k.suffix.toList⟩, ?_, by simp [hne], rfl, ?_⟩
+      rw [if_pos hne, if_pos hne]
+      refine ⟨?_, by simp [hne]⟩
       · unfold matchInt
         simp only [List.cons_append, List.append_assoc, hX, hB]
         rw [htw, hdw, hne]
@@ -292,22 +343,13 @@ theorem matchInt_valid (u : Uni) (k : IntConst) (hk : k.WF) (rest : List Char) (
             (by intro c hc; simp at hc; subst hc; exact h0) (fun c hc => (hah c hc).1)
           simpa using this
         rw [htw0, hdw0]
-        have := intFin_valid u [] ['0'] (by simp) hs hb
+        have := intFin_valid u [] ['0'] (by simp) hw hb
         simpa [intFin] using this
-      · intro line col total
-        unfold intDiags
-        simp [sufmem]
-    · refine ⟨⟨['0'], k.digits, k.suffix.toList⟩, ?_, by simp, rfl, ?_⟩
+    · rw [if_neg hne, if_neg hne]
+      refine ⟨?_, by simp⟩
       · unfold matchInt
         simp only [List.cons_append, List.append_assoc, hX, hB]
-        rw [htw, hdw, intFin_valid u ['0'] k.digits hne hs hb]
-      · intro line col total
-        unfold intDiags
-        simp only [String.ofList_toList, List.contains_eq_mem, sufmem, decide_true, ↓reduceIte, List.nil_append]
-        have : (String.ofList ['0'] == "0") = true := by decide
-        have h2 : (String.ofList ['0'] == "0b" || String.ofList ['0'] == "0B") = false := by decide
-        simp only [h2, Bool.false_eq_true, ↓reduceIte, this]
-        exact badDigits_nil _ _ _ _ _ hoct
+        rw [htw, hdw, intFin_valid u ['0'] k.digits hne hw hb]
   | hex x =>
     rw [hbse] at hbase
     simp only at hbase ⊢
@@ -342,33 +384,16 @@ theorem matchInt_valid (u : Uni) (k : IntConst) (hk : k.WF) (rest : List Char) (
       takeWhile_app (fun c hc => (hex_facts u (hall c hc)).1) (fun c hc => (hah c hc).2.1)
     have hdw : (k.digits ++ (k.suffix.toList ++ rest)).dropWhile u.isH = k.suffix.toList ++ rest :=
       dropWhile_app (fun c hc => (hex_facts u (hall c hc)).1) (fun c hc => (hah c hc).2.1)
-    refine ⟨⟨['0', x], k.digits, k.suffix.toList⟩, ?_, by simp, rfl, ?_⟩
+    refine ⟨?_, by simp⟩
     · unfold matchInt
       simp only [List.cons_append, List.append_assoc]
       unfold intAltX
-      simp only [htwx, hdwx, htw, hdw, intFin_valid u ['0', x] k.digits hne hs hb]
-    · intro line col total
-      unfold intDiags
-      simp only [String.ofList_toList, List.contains_eq_mem, sufmem, decide_true, ↓reduceIte, List.nil_append]
-      have hbk : ∀ c ∈ k.digits, "0123456789abcdefABCDEF".toList.contains c = true :=
-        fun c hc => (hex_facts u (hall c hc)).2.2.2
-      rcases hx with rfl | rfl
-      · have h1 : (String.ofList ['0', 'x'] == "0b" || String.ofList ['0', 'x'] == "0B") = false := by decide
-        have h2 : (String.ofList ['0', 'x'] == "0") = false := by decide
-        have h3 : (String.ofList ['0', 'x'] == "0x" || String.ofList ['0', 'x'] == "0X") = true := by decide
-        simp only [h1, h2, h3, Bool.false_eq_true, ↓reduceIte]
-        exact badDigits_nil _ _ _ _ _ hbk
-      · have h1 : (String.ofList ['0', 'X'] == "0b" || String.ofList ['0', 'X'] == "0B") = false := by decide
-        have h2 : (String.ofList ['0', 'X'] == "0") = false := by decide
-        have h3 : (String.ofList ['0', 'X'] == "0x" || String.ofList ['0', 'X'] == "0X") = true := by decide
-        simp only [h1, h2, h3, Bool.false_eq_true, ↓reduceIte]
-        exact badDigits_nil _ _ _ _ _ hbk
+      simp only [htwx, hdwx, htw, hdw, intFin_valid u ['0', x] k.digits hne hw hb]
   | bin b =>
     rw [hbse] at hbase
     simp only at hbase ⊢
     obtain ⟨hbb, hne, hbin⟩ := hbase
-    have hall : ∀ c ∈ k.digits, c ∈ decDigits := fun c hc => (bin_tbl c (by have := hbin c hc; unfold isBin at this; simpa using this)).1
-    have hbk : ∀ c ∈ k.digits, "01".toList.contains c = true := fun c hc => (bin_tbl c (by have := hbin c hc; unfold isBin at this; simpa using this)).2
+    have hall : ∀ c ∈ k.digits, c ∈ decDigits := fun c hc => by have := hbin c hc; unfold isDec at this; simpa using this
     have hbX : isXc b = false := by rcases hbb with rfl | rfl <;> decide
     have hbB : isBc b = true := by rcases hbb with rfl | rfl <;> decide
     have hX : intAltX u (b :: (k.digits ++ (k.suffix.toList ++ rest))) = none := by
@@ -393,20 +418,10 @@ theorem matchInt_valid (u : Uni) (k : IntConst) (hk : k.WF) (rest : List Char) (
       takeWhile_app (fun c hc => (dec_facts u (hall c hc)).1) (fun c hc => (hah c hc).1)
     have hdw : (k.digits ++ (k.suffix.toList ++ rest)).dropWhile u.isD = k.suffix.toList ++ rest :=
       dropWhile_app (fun c hc => (dec_facts u (hall c hc)).1) (fun c hc => (hah c hc).1)
-    refine ⟨⟨['0', b], k.digits, k.suffix.toList⟩, ?_, by simp, rfl, ?_⟩
+    refine ⟨?_, by simp⟩
     · unfold matchInt
       simp only [List.cons_append, List.append_assoc, hX]
       unfold intAltB
-      simp only [htwb, hdwb, htw, hdw, intFin_valid u ['0', b] k.digits hne hs hb]
-    · intro line col total
-      unfold intDiags
-      simp only [String.ofList_toList, List.contains_eq_mem, sufmem, decide_true, ↓reduceIte, List.nil_append]
-      rcases hbb with rfl | rfl
-      · have h1 : (String.ofList ['0', 'b'] == "0b" || String.ofList ['0', 'b'] == "0B") = true := by decide
-        simp only [h1, ↓reduceIte]
-        exact badDigits_nil _ _ _ _ _ hbk
-      · have h1 : (String.ofList ['0', 'B'] == "0b" || String.ofList ['0', 'B'] == "0B") = true := by decide
-        simp only [h1, ↓reduceIte]
-        exact badDigits_nil _ _ _ _ _ hbk
+      simp only [htwb, hdwb, htw, hdw, intFin_valid u ['0', b] k.digits hne hw hb]
 
 end Norm
